@@ -36,7 +36,7 @@ def sig(scen, kind, detail, rec=None):
                  "crossing_retransmission"]
         hclass = rec.get("hclass") if rec else max(scen["cls"].values(), key=order.index)
         cipher = rec.get("cipher") if rec else "?"
-        return {"family": "wifi", "cls": "hs", "kind": kind, "cipher": cipher, "fault": "none", "pn": "high", "a3peer": False,
+        return {"family": "wifi", "cls": "hs", "kind": kind, "cipher": cipher, "fault": "none", "pn": "low", "a3peer": False,
                 "hclass": hclass}
     return {"family": "wifi", "cls": scen.get("kind", "?"), "kind": kind}
 
@@ -63,11 +63,14 @@ def selftest(exe):
 def run(tier):
     t0 = time.time()
     quick = tier == "quick"
+    for old in glob.glob(os.path.join(vlib.workdir(PROP), "viol-*.json")):      # replay files of earlier runs would only confuse
+        os.unlink(old)
     v = vlib.Verdict(PROP)
     # ---- design level: four-way handshake, capturer, key table
     mc_cfgs = ["FourWay_code_strict_q.cfg", "FourWay_ideal_q.cfg", "FourWay_ideal_1sta.cfg", "FourWay_ideal_1sta_fresh.cfg"]
     if not quick:
-        mc_cfgs += ["FourWay_code_strict_t.cfg", "FourWay_ideal_t.cfg", "FourWay_ideal_fresh_t.cfg"]
+        mc_cfgs += ["FourWay_ideal_1sta_strict.cfg", "FourWay_ideal_1sta_strict_fresh.cfg",
+                    "FourWay_code_strict_t.cfg", "FourWay_ideal_t.cfg", "FourWay_ideal_fresh_t.cfg"]
     mc = [vlib.model_check("wifi/FourWay", c, timeout=1800) for c in mc_cfgs]
     # the capturer AS WRITTEN against a lenient authenticator: expected to be refuted -- a DESIGN finding (F17), reported
     # below, which does not fail the check (the conformance part decides about the real code)
@@ -95,7 +98,7 @@ def run(tier):
                                    workers=4, timeout=1800)
         for s in sim:
             hist[vlib.canon_hash(s)] = s
-    hscen = [dict(hist[k], kind="hs") for k in sorted(hist)][: (1800 if quick else 60000)]
+    hscen = [dict(hist[k], kind="hs") for k in sorted(hist)][: (1800 if quick else 45000)]
     # ---- replay + validation
     p = vlib.Pipeline(PROP, HARNESS, TRACE, extra_flags=_flags())
     st = selftest(p.exe)
@@ -105,8 +108,15 @@ def run(tier):
         p.push(allf[i:i + chunk], "f%d" % (i // chunk))
     for i in range(0, len(hscen), chunk):
         p.push(hscen[i:i + chunk], "h%d" % (i // chunk))
-    p.confirm(v, sig)
+    p.confirm(v, sig, limit=90)
     rc = v.finish()
+    sigs = {}
+    for path, _ in v.violations:
+        with open(path) as f:
+            k = json.dumps({a: b for a, b in json.load(f)["sig"].items() if a != "family"}, sort_keys=True)
+        sigs[k] = sigs.get(k, 0) + 1
+    for k in sorted(sigs):
+        vlib.log("[signature] %d confirmed: %s" % (sigs[k], k))
     scen = fscen + hscen
     distinct = {vlib.canon_hash({k: x for k, x in s.items() if k != "rep"}) for s in scen if nontrivial(s)}
     classes = {}
